@@ -15,7 +15,7 @@ def _one(d):
     p = corpus.build(d)
     try:
         t = recorder.record_call(p["fun"], p["x0"], bounds=p["bounds"], constraints=p["constraints"],
-                                 callback=p["callback"], options=p["options"], want=want,
+                                 callback=p["callback"], options=p["options"], constants=p.get("constants"), want=want,
                                  timeout=timeout, meta=p["meta"])
     except BaseException as ex:  # recorder failure: machinery, reported by the caller
         return {"hdr": None, "ev": [], "err": f"{type(ex).__name__}: {ex}", "did": p["meta"]["did"]}
